@@ -494,7 +494,7 @@ func (fx *FX) evalBinary(env *Env, t *EBinary) Val {
 	switch t.Op {
 	case "==", "!=":
 		var e Term
-		if xs.Sort == SStr {
+		if xs.Sort == SStr && (strings.HasPrefix(xs.S, "strlit_") || strings.HasPrefix(ys.S, "strlit_") || xs.S == "empty_str" || ys.S == "empty_str") {
 			e = fx.strEq(xs, ys)
 		} else {
 			e = IdEq(xs, ys)
